@@ -8,6 +8,7 @@ import (
 	"sort"
 
 	v1 "k8s.io/api/core/v1"
+	"k8s.io/apimachinery/pkg/api/resource"
 
 	"verif/harness/internal/vh"
 	"volcano.sh/volcano/pkg/scheduler/api"
@@ -182,6 +183,24 @@ func resAll(r, rr, req *api.Resource) (out []int64) {
 		g1, _ := r.GreaterPartly(rr, api.Infinity)
 		app(tag(20), b(g0), b(g1))
 	}
+	{
+		// Resource.Sub asserts rr.LessEqual(r, Zero) and panics (PANIC_ON_ERROR defaults to true) otherwise
+		var res *api.Resource
+		func() {
+			defer func() {
+				if p := recover(); p != nil {
+					res = nil
+				}
+			}()
+			res = r.Clone().Sub(rr)
+		}()
+		if res == nil {
+			app(tag(22), []int64{0})
+		} else {
+			app(tag(22), []int64{1}, encRes(res))
+		}
+	}
+	app(tag(23), b(rr.Less(r, api.Zero)), b(rr.Less(r, api.Infinity)))
 	return out
 }
 
@@ -228,6 +247,33 @@ func resCmp(r, rr, req *api.Resource) (out []int64) {
 	return out
 }
 
+var convNames = []v1.ResourceName{v1.ResourceCPU, v1.ResourceMemory, "nvidia.com/gpu", v1.ResourcePods}
+
+func quantityOfMilli(m int64) resource.Quantity {
+	if m%1000 == 0 {
+		return *resource.NewQuantity(m/1000, resource.DecimalSI)
+	}
+	return *resource.NewMilliQuantity(m, resource.DecimalSI)
+}
+
+// q2f2q: ResQuantity2Float64 then ResFloat642Quantity on the quantity of m milli-units
+func q2f2q(n v1.ResourceName, m int64) (float64, int64) {
+	f := api.ResQuantity2Float64(n, quantityOfMilli(m))
+	return f, milliOf(api.ResFloat642Quantity(n, f))
+}
+
+// floatParts: f = mant * 2^e exactly (mant an integer below 2^53 in magnitude)
+func floatParts(f float64) (int64, int64) {
+	if f == 0 {
+		return 0, 0
+	}
+	if math.IsInf(f, 0) || math.IsNaN(f) {
+		panic("conversion produced a non-finite float")
+	}
+	frac, e := math.Frexp(f)
+	return int64(frac * (1 << 53)), int64(e - 53)
+}
+
 func run(sel int, in []int64) []int64 {
 	grid = 16.0
 	if sel == 11 || sel == 12 {
@@ -246,14 +292,23 @@ func run(sel int, in []int64) []int64 {
 		}
 		return []int64{acc}
 	case 4:
-		// in[0] = amount (integer in the unit of the resource), in[1] = which resource
-		names := []v1.ResourceName{v1.ResourceCPU, v1.ResourceMemory, "nvidia.com/gpu", v1.ResourcePods}
-		n := names[int(in[1])%len(names)]
-		back := api.ResQuantity2Float64(n, api.ResFloat642Quantity(n, float64(in[0])))
-		if back != math.Trunc(back) {
-			panic("round trip left the integers")
+		// in = grid g, amount x (the float is x/g), which resource
+		n := convNames[int(in[2])%len(convNames)]
+		g := float64(in[0])
+		q := api.ResFloat642Quantity(n, float64(in[1])/g)
+		back := api.ResQuantity2Float64(n, q) * g
+		if back != math.Trunc(back) || math.Abs(back) > 1<<62 {
+			return []int64{milliOf(q), 0, 0}
 		}
-		return []int64{int64(back)}
+		return []int64{milliOf(q), 1, int64(back)}
+	case 13:
+		// in = quantity in milli-units, which resource
+		n := convNames[int(in[1])%len(convNames)]
+		f, back := q2f2q(n, in[0])
+		if f != math.Trunc(f) || math.Abs(f) > 1<<62 {
+			return []int64{0, 0, back}
+		}
+		return []int64{1, int64(f), back}
 	case 5:
 		return runMinDRA(parseJob(&tokReader{t: in}))
 	case 6:
@@ -262,6 +317,8 @@ func run(sel int, in []int64) []int64 {
 		return runNewResource(in)
 	case 8:
 		return runConvert(in)
+	case 9:
+		return runBuildTaskDRA(in)
 	case 10, 11:
 		tr := &tokReader{t: in, i: 1}
 		r := decRes(tr)
@@ -387,7 +444,16 @@ func laws(sel int, in, got []int64, law func(lsel int, lin []int64, sig string))
 	case 3:
 		law(103, append(append([]int64{}, in...), got[0]), "")
 	case 4:
-		law(104, []int64{in[0], got[0]}, "")
+		{
+			n := convNames[int(in[2])%len(convNames)]
+			mant, e := floatParts(api.ResQuantity2Float64(n, api.ResFloat642Quantity(n, float64(in[1])/float64(in[0]))))
+			law(104, []int64{in[0], in[1], in[2] % int64(len(convNames)), got[0], mant, e}, "")
+		}
+	case 13:
+		n := convNames[int(in[1])%len(convNames)]
+		f, back := q2f2q(n, in[0])
+		mant, e := floatParts(f)
+		law(115, []int64{in[0], in[1] % int64(len(convNames)), mant, e, back}, "")
 	case 5:
 		lawsMinDRA(in, got, law)
 	case 6:
@@ -403,6 +469,8 @@ func laws(sel int, in, got []int64, law func(lsel int, lin []int64, sig string))
 		lawsNewResource(in, law)
 	case 8:
 		lawsConvert(in, law)
+	case 9:
+		lawsBuildTaskDRA(in, got, law)
 	case 10, 11:
 		grid = 16.0
 		if sel == 11 {
@@ -410,12 +478,6 @@ func laws(sel int, in, got []int64, law func(lsel int, lin []int64, sig string))
 		}
 		tr := &tokReader{t: in, i: 1}
 		r, rr := decRes(tr), decRes(tr)
-		cat := func(xs ...[]int64) (o []int64) {
-			for _, x := range xs {
-				o = append(o, x...)
-			}
-			return
-		}
 		A := r.Clone().Add(rr)
 		S := A.Clone().SubWithoutAssert(rr)
 		B := rr.Clone().Add(r)
@@ -436,6 +498,22 @@ func laws(sel int, in, got []int64, law func(lsel int, lin []int64, sig string))
 		mx.SetMaxResource(rr)
 		mn := r.Clone().MinDimensionResource(rr, api.Zero)
 		law(113, cat(encRes(r), encRes(rr), encRes(mx), encRes(mn)), "")
+		{
+			panicked := false
+			func() {
+				defer func() {
+					if p := recover(); p != nil {
+						panicked = true
+					}
+				}()
+				r.Clone().Sub(rr)
+			}()
+			law(116, []int64{vh.B(panicked), vh.B(rr.LessEqual(r, api.Zero))}, "")
+		}
+		for _, d := range []api.DimensionDefaultValue{api.Zero, api.Infinity} {
+			law(114, []int64{vh.B(r.Less(rr, d)), vh.B(r.LessEqual(rr, d)), vh.B(r.LessPartly(rr, d)),
+				vh.B(r.LessEqualPartly(rr, d)), vh.B(rr.Less(r, d))}, "")
+		}
 	}
 }
 
@@ -480,6 +558,16 @@ func gen(rng *vh.Rng, n int, emit func(id string, sel int, in []int64, kind stri
 			emit(fmt.Sprintf("dra-ops-%d", i), 6, genDRAOps(r), "dra_resource/add_sub_clone", true, nil)
 		}
 	}
+	// the scheduler cache building TaskInfo.DRAResreq from ResourceClaims
+	for i, in := range directedClaims() {
+		emit(fmt.Sprintf("task-dra-directed-%d", i), 9, in, "build_task_dra/directed", true, nil)
+	}
+	{
+		r := rng.Fork()
+		for i := 0; i < n/2+1; i++ {
+			emit(fmt.Sprintf("task-dra-%d", i), 9, genClaims(r), "build_task_dra", true, nil)
+		}
+	}
 	// quantities <-> Resource: NewResource, ConvertRes2ResList and both round trips
 	directedQuant(emit)
 	{
@@ -493,13 +581,48 @@ func gen(rng *vh.Rng, n int, emit func(id string, sel int, in []int64, kind stri
 			emit(fmt.Sprintf("convert-%d", i), 8, in, "convert_res2reslist", in[3] >= 1, nil)
 		}
 	}
-	// quantity round trip: integers up to 2^53 (exactly representable), all four unit rules
+	// float -> Quantity -> float: integral and fractional amounts (grid 16), all four unit rules
 	for i := 0; i < n/2+1; i++ {
 		x := int64(rng.U64() >> uint(11+rng.Intn(53)))
 		if rng.Chance(1, 6) {
 			x = vh.Pick(rng, []int64{0, 1, 999, 1000, 1 << 20, (1 << 53) - 1, 1 << 53, 1 << 40})
 		}
-		emit(fmt.Sprintf("quantity-%d", i), 4, []int64{x, int64(rng.Intn(4))}, "quantity_roundtrip", x > 0, nil)
+		g := int64(1)
+		if rng.Chance(1, 3) {
+			g = 16
+			x = x >> 6 // x/16 stays below 2^49
+			if rng.Chance(1, 2) {
+				x = int64(rng.Range(0, 4000)) // around whole units: 16*k + fraction
+			}
+		}
+		if rng.Chance(1, 8) {
+			x = -x
+		}
+		emit(fmt.Sprintf("quantity-%d", i), 4, []int64{g, x, int64(rng.Intn(4))}, "float_quantity_float", x != 0, nil)
+	}
+	// Quantity -> float -> Quantity: EVERY cpu milli value 0..10000, then boundary families for all names
+	for m := int64(0); m <= 10000; m++ {
+		emit(fmt.Sprintf("q2f-cpu-%d", m), 13, []int64{m, 0}, "quantity_float_quantity/cpu-sweep", m > 0, nil)
+	}
+	for i := 0; i < n+1; i++ {
+		var m int64
+		switch rng.Intn(7) {
+		case 0:
+			m = int64(rng.Range(10001, 1<<22))
+		case 1:
+			m = int64(rng.Range(1, 1<<20))*1000 + int64(vh.Pick(rng, []int{0, 1, 7, 15, 95, 190, 500, 999}))
+		case 2:
+			m = (int64(1) << uint(rng.Range(10, 52))) + int64(rng.Range(-3, 3))
+		case 3:
+			m = (int64(1) << 53) - int64(rng.Range(0, 4096))
+		case 4:
+			m = int64(rng.U64() >> uint(11+rng.Intn(50)))
+		case 5:
+			m = -int64(rng.Range(1, 20000))
+		default:
+			m = int64(rng.Range(0, 64)) * 1000
+		}
+		emit(fmt.Sprintf("q2f-%d", i), 13, []int64{m, int64(rng.Intn(4))}, "quantity_float_quantity", m != 0, nil)
 	}
 	// large magnitudes on the unit grid: multiples of 2^12 up to 2^60 (all of res_all stays exact)
 	bigAmt := func() int64 {
@@ -570,6 +693,55 @@ func gen(rng *vh.Rng, n int, emit func(id string, sel int, in []int64, kind stri
 		req := bigRes(rr, true)
 		in := append(append(append([]int64{1}, r...), rr...), req...)
 		emit(fmt.Sprintf("res-inf-%d", i), 12, in, "resource/comparisons/sentinel", true, nil)
+	}
+	// r above rr in cpu and memory, scalars one-sided and / or every shared scalar above: the shape on which
+	// the partial comparisons and their Infinity convention decide
+	for i := 0; i < n/2+1; i++ {
+		rr := genRes(rng, nil)
+		up := func(v int64) int64 {
+			w := v + int64(vh.Pick(rng, []int{2, 3, 16, 17, 160}))
+			if w == -16 { // -1.0 is Diff's Infinity marker (assumption 2)
+				w = -15
+			}
+			return w
+		}
+		r := []int64{up(rr[0]), up(rr[1]), 1, 0}
+		cnt := int64(0)
+		for j := 0; j < int(rr[3]); j++ {
+			if rng.Chance(3, 4) {
+				r = append(r, rr[4+2*j], up(rr[5+2*j]))
+				cnt++
+			}
+		}
+		for _, k := range keyPool {
+			has := false
+			for j := 0; j < int(rr[3]); j++ {
+				if rr[4+2*j] == k {
+					has = true
+				}
+			}
+			if !has && rng.Chance(1, 2) {
+				r = append(r, k, genAmount(rng))
+				cnt++
+			}
+		}
+		// keys ascending
+		type kv struct{ k, v int64 }
+		kvs := []kv{}
+		for j := int64(0); j < cnt; j++ {
+			kvs = append(kvs, kv{r[4+2*j], r[5+2*j]})
+		}
+		sort.Slice(kvs, func(a, b int) bool { return kvs[a].k < kvs[b].k })
+		r = r[:4]
+		r[3] = cnt
+		for _, e := range kvs {
+			r = append(r, e.k, e.v)
+		}
+		in := []int64{epsUnits}
+		in = append(in, r...)
+		in = append(in, rr...)
+		in = append(in, genRes(rng, rr)...)
+		emit(fmt.Sprintf("res-above-%d", i), 10, in, "resource/all-methods/r-above-rr", true, nil)
 	}
 	// resource vectors
 	for i := 0; i < 3*n; i++ {
